@@ -8,6 +8,7 @@ enumeration membership, result of a fallible conversion / delegated check).  Bec
 touches the value only through these atoms, the set of paths *is* the function's behaviour on all
 inputs; each path's outcome is compared with the XSD oracle.  Anything unclassifiable is reported
 (fail closed)."""
+from engine.rulekit import inline as I
 from engine.rulekit import mir as M
 from engine.rulekit import pp
 
@@ -62,7 +63,9 @@ class Analyzer:
 
     def __init__(self, F, fact_body, roles, depth=0):
         self.F = F
-        self.B = M.Body(fact_body)
+        # local helper functions and directly called closures are part of the function: analysed inlined (the delegated
+        # check_restrictions calls stay calls: they are what the wrapper rules look for)
+        self.B = M.Body(I.Inliner(F.lib, stop=lambda p: p.endswith("::check_restrictions")).body(fact_body)) if depth == 0 else M.Body(fact_body)
         self.roles = roles  # param local -> 'value' | 'restr_opt' | 'restr' | Role
         self.depth = depth
         self.paths = []
@@ -245,6 +248,13 @@ class Analyzer:
                 r = Role("member", via="any", closure=args[1])
             else:
                 r = Role("other", why=f"any over {src!r}")
+        elif decl.endswith("Iterator::all"):
+            # all(|e| e != v)  ==  !any(|e| e == v)
+            src = a(0)
+            if src.kind == "iter" and src.of.kind == "bound" and src.of.facet == "enumeration" and not src.adapters:
+                r = Role("not", x=Role("member", via="any", closure=args[1], negated=True))
+            else:
+                r = Role("other", why=f"all over {src!r}")
         elif decl.endswith(("[T]>::iter", "IntoIterator::into_iter")):
             src = a(0)
             if src.kind == "iter":
@@ -281,7 +291,7 @@ class Analyzer:
 
     # ---- path enumeration -------------------------------------------------------------------
     def explore(self):
-        init = {"R": None, "P": {}, "ord": {}, "member": None, "events": [], "fallible": {}, "self_some": None}
+        init = {"R": None, "P": {}, "ord": {}, "member": None, "events": [], "fallible": {}, "self_some": None, "vals": {}}
         self._walk(0, init, [], {}, None)
         # a tail call into a local helper (`return helper(value, &restrictions)`): splice the helper's paths in
         out = []
@@ -307,7 +317,7 @@ class Analyzer:
     def _fork(self, st):
         return {"R": st["R"], "P": dict(st["P"]), "ord": {k: set(v) for k, v in st["ord"].items()},
                 "member": st["member"], "events": list(st["events"]), "fallible": dict(st["fallible"]),
-                "self_some": st["self_some"], "helper_err": st.get("helper_err")}
+                "self_some": st["self_some"], "helper_err": st.get("helper_err"), "vals": dict(st.get("vals", {}))}
 
     def _walk(self, bb, st, trail, visits, ret_assign):
         visits = dict(visits)
@@ -319,14 +329,30 @@ class Analyzer:
             raise Undecided("path explosion")
         trail = trail + [bb]
         blk = self.B.blocks[bb]
+        if blk["stmts"]:
+            st = self._fork(st)
         for s in blk["stmts"]:
+            if s["k"] == "assign" and not s["p"].get("proj"):
+                self._track(st["vals"], s["p"]["l"], s["rv"], bb)
             if s["k"] == "assign" and s["p"]["l"] == 0 and not s["p"].get("proj"):
-                ret_assign = ("stmt", bb, s["rv"])
+                ret_assign = ("stmt", bb, s["rv"], st["vals"].get(0))
         t = blk.get("term") or {}
         k = t.get("k")
         if k == "call":
+            dcl = M.Body.callee_decl(t) or ""
+            a0 = t["args"][0] if t.get("args") else None
+            a0v = st["vals"].get(a0["p"]["l"]) if a0 and a0.get("k") in ("copy", "move") and not a0["p"].get("proj") else None
+            if not t["dest"].get("proj") and (t["dest"]["l"] in st["vals"] or a0v is not None):
+                st = self._fork(st)
+                st["vals"].pop(t["dest"]["l"], None)
+                if dcl.endswith("ops::Try::branch") and isinstance(a0v, tuple) and a0v[0] == "result":
+                    st["vals"][t["dest"]["l"]] = a0v     # ControlFlow::Continue for Ok, Break for Err: same discriminants
+            if not t["dest"].get("proj") and t["dest"]["l"] not in st["vals"] and len(self.B.defs().get(t["dest"]["l"], [])) > 1:
+                # a local with several definitions: on this path it holds the result of this call
+                st = self._fork(st)
+                st["vals"][t["dest"]["l"]] = ("calldef", bb)
             if t["dest"]["l"] == 0 and not t["dest"].get("proj"):
-                ret_assign = ("call", bb, t)
+                ret_assign = ("call", bb, t, a0v)
             decl = M.Body.callee_decl(t) or ""
             if decl.endswith("CheckRestrictions::check_restrictions"):
                 st = self._fork(st)
@@ -346,8 +372,22 @@ class Analyzer:
         if k == "unreachable":
             return
         if k == "switch":
-            role = self.role_of_operand(t["discr"])
             arms = [(v, b) for v, b in t["targets"]] + [("otherwise", t["otherwise"])]
+            d = t["discr"]
+            known = st["vals"].get(d["p"]["l"]) if d.get("k") in ("copy", "move") and not d["p"].get("proj") else None
+            hops = 0
+            while isinstance(known, tuple) and known[0] == "alias" and hops < 8:
+                d = {"k": "copy", "p": {"l": known[1]}}
+                known = st["vals"].get(known[1])
+                hops += 1
+            if isinstance(known, tuple) and known[0] == "int":
+                # the value switched on was fixed on this very path (a boolean built by `matches!`, `||`, a Result built by hand)
+                taken = [b for v, b in t["targets"] if v == known[1]] or [t["otherwise"]]
+                return self._walk(taken[0], st, trail, visits, ret_assign)
+            if isinstance(known, tuple) and known[0] == "calldef":
+                role = self.role_of_origin(M.Origin("call", term=self.B.term(known[1]), bb=known[1], proj=[], steps=[]))
+            else:
+                role = self.role_of_operand(d)
             for val, tgt in arms:
                 if self.B.term(tgt).get("k") == "unreachable":
                     continue
@@ -360,6 +400,42 @@ class Analyzer:
                         self._walk(tgt, st3, trail, visits, ret_assign)
             return
         raise Undecided(f"terminator {k}", bb)
+
+    def _track(self, vals, l, rv, bb):
+        """values fixed on the current path: boolean / integer constants, hand-built Ok / Err, discriminants of those, copies"""
+        k = rv["k"]
+        if k == "use" and rv["op"].get("k") == "const":
+            c = rv["op"]
+            v = c.get("int", c.get("bits"))
+            if v is None and str(c.get("text")).strip() in ("true", "const true"):
+                v = 1
+            if v is None and str(c.get("text")).strip() in ("false", "const false"):
+                v = 0
+            if isinstance(v, int):
+                vals[l] = ("int", v)
+                return
+        if k == "use" and rv["op"].get("k") in ("copy", "move") and not rv["op"]["p"].get("proj") and rv["op"]["p"]["l"] in vals:
+            vals[l] = vals[rv["op"]["p"]["l"]]
+            return
+        if k == "use" and rv["op"].get("k") in ("copy", "move") and not rv["op"]["p"].get("proj"):
+            vals[l] = ("alias", rv["op"]["p"]["l"])   # on this path the local is a copy of that one (which has its own definition)
+            return
+        if k == "use" and rv["op"].get("k") in ("copy", "move") and rv["op"]["p"].get("proj"):
+            src = vals.get(rv["op"]["p"]["l"])
+            if isinstance(src, tuple) and src[0] == "result" and src[1] == "Err":
+                vals[l] = ("errpayload", src[2])   # the error of a Result built by hand on this path, taken out by `?`
+                return
+        if k == "aggregate" and rv.get("adt", "").endswith("result::Result"):
+            vals[l] = ("result", rv["variant"], bb)
+            return
+        if k == "discr" and not rv["p"].get("proj") and isinstance(vals.get(rv["p"]["l"]), tuple) and vals[rv["p"]["l"]][0] == "result":
+            vals[l] = ("int", 0 if vals[rv["p"]["l"]][1] == "Ok" else 1)
+            return
+        if k == "unop" and rv.get("op") == "Not" and rv.get("a", {}).get("k") in ("copy", "move") and not rv["a"]["p"].get("proj") \
+                and isinstance(vals.get(rv["a"]["p"]["l"]), tuple) and vals[rv["a"]["p"]["l"]][0] == "int":
+            vals[l] = ("int", 0 if vals[rv["a"]["p"]["l"]][1] else 1)
+            return
+        vals.pop(l, None)
 
     def _truth(self, val, values):
         """Truth value selected by a switch arm on a bool (0=false)."""
@@ -416,7 +492,7 @@ class Analyzer:
             return self._set(st, "R", truth)
         if k == "member":
             if getattr(role, "via", None) == "any":
-                st["events"].append(("member-via-any", role.closure, bb))
+                st["events"].append(("member-via-any", role.closure, bb, getattr(role, "negated", False)))
             return self._set(st, "member", truth)
         if k == "cmp":
             return self._constrain_cmp(st, role, truth, bb)
@@ -532,11 +608,14 @@ class Analyzer:
     def _outcome(self, ret_assign):
         if ret_assign is None:
             return ("unknown", None)
-        kind, bb, x = ret_assign
+        kind, bb, x = ret_assign[:3]
         if kind == "stmt":
             rv = x
             if rv["k"] == "aggregate" and rv.get("adt", "").endswith("result::Result"):
                 return ("Ok", bb) if rv["variant"] == "Ok" else ("Err", bb)
+            tracked = ret_assign[3] if len(ret_assign) > 3 else None
+            if isinstance(tracked, tuple) and tracked[0] == "result":
+                return ("Ok", tracked[2]) if tracked[1] == "Ok" else ("Err", tracked[2])
             if rv["k"] == "use":
                 r = self.role_of_operand(rv["op"])
                 return ("value", bb, r)
@@ -544,6 +623,9 @@ class Analyzer:
         t = x
         decl = M.Body.callee_decl(t) or ""
         if decl.endswith("FromResidual::from_residual"):
+            tracked = ret_assign[3] if len(ret_assign) > 3 else None
+            if isinstance(tracked, tuple) and tracked[0] == "errpayload":
+                return ("Err", tracked[1])   # `helper(..)?` with the helper inlined: the Err it built on this path
             r = self.role_of_operand(t["args"][0])
             return ("Residual", bb, r)
         r_args = [self.role_of_operand(a) for a in t["args"]]
@@ -602,7 +684,7 @@ def judge_leaf(ck, carrier, fn_path, an, paths, supported, site):
                 viol("R5", f"{ev[2]}:unknown-cast", ev[3], f"cast not understood before the {ev[2]} comparison ({ev[1]})")
         for ev in st["events"]:
             if ev[0] == "member-via-any":
-                why = check_any_closure(an, ev[1])
+                why = check_any_closure(an, ev[1], negated=(len(ev) > 3 and ev[3]))
                 if why:
                     viol("R1", "enumeration:any-closure", ev[2],
                          f"{carrier}: enumeration membership is tested with `any`, but {why}")
@@ -703,7 +785,7 @@ def judge_leaf(ck, carrier, fn_path, an, paths, supported, site):
     return n_ok, n_err
 
 
-def check_any_closure(an, closure_operand):
+def check_any_closure(an, closure_operand, negated=False):
     """`enumeration.iter().any(|e| ...)`: the closure must compare (==) something derived from its element with
     something derived from the captured carrier value. Returns a reason string if not."""
     B = an.B
@@ -723,10 +805,10 @@ def check_any_closure(an, closure_operand):
         blk = CB.blocks[i]
         cands = []
         for st in blk["stmts"]:
-            if st["k"] == "assign" and st["rv"]["k"] == "binop" and st["rv"]["op"] == "Eq":
+            if st["k"] == "assign" and st["rv"]["k"] == "binop" and st["rv"]["op"] == ("Ne" if negated else "Eq"):
                 cands.append((st["rv"]["a"], st["rv"]["b"]))
         t = blk.get("term") or {}
-        if t.get("k") == "call" and (M.Body.callee_decl(t) or "").endswith("cmp::PartialEq::eq"):
+        if t.get("k") == "call" and (M.Body.callee_decl(t) or "").endswith("cmp::PartialEq::ne" if negated else "cmp::PartialEq::eq"):
             cands.append((t["args"][0], t["args"][1]))
         for a, b in cands:
             da, db = M.deps(CB, a), M.deps(CB, b)
@@ -862,6 +944,13 @@ def judge_wrapper(ck, carrier, an, paths, site, shape):
                 problems.append(("foreign-error", out[1], f"an error not coming from the delegated check is returned ({src!r})"))
         elif kind == "Err":
             problems.append(("own-error", out[1], "the wrapper constructs an error of its own"))
+        elif kind == "Call" and shape == "vec" and (out[4] or "").endswith("Iterator::try_for_each"):
+            # `self.iter().try_for_each(|item| item.check_restrictions(r.clone()))`: stops at and returns the first error
+            why = _try_for_each_delegates(an, out)
+            if why:
+                problems.append(("iteration", out[1], why))
+            else:
+                n_deleg = max(n_deleg, 1)
         else:
             problems.append((f"outcome-{kind}", out[1] if len(out) > 1 else None, f"path outcome {kind}"))
     if n_deleg == 0:
@@ -874,6 +963,42 @@ def judge_wrapper(ck, carrier, an, paths, site, shape):
         ck.violation("R7", desc, an.B.term(bb).get("sp", site) if bb is not None else site, f"{carrier}: {what}", fn=carrier)
     if not problems:
         ck.ok("R7", "delegation", site, f"{carrier}: {len(paths)} paths, result is exactly the delegated result", fn=carrier)
+
+
+def _try_for_each_delegates(an, out):
+    """None when the returned `iter.try_for_each(closure)` checks every element of self with the incoming restriction set and
+    hands the closure's result on; else the reason."""
+    B = an.B
+    t = B.term(out[1])
+    it = out[3][0] if out[3] else None
+    if it is None or it.kind != "iter" or it.of.kind != "value_vec" or it.adapters:
+        return f"elements come from {it!r}, not from an unfiltered iteration of self"
+    agg = [o for o in M.trace(B, t["args"][1]) if o.kind == "aggregate" and o.rv.get("closure")]
+    if len(agg) != 1:
+        return "the per-element function is not a closure literal"
+    cb = an.F.lib.body(agg[0].rv["closure"])
+    if cb is None or not cb.get("mir"):
+        return "the closure body is not available"
+    cap_roles = [an.role_of_operand(o) for o in agg[0].rv["ops"]]
+    CB = M.Body(cb)
+    dels = CB.calls_to("CheckRestrictions::check_restrictions")
+    if len(dels) != 1:
+        return f"the closure makes {len(dels)} delegated checks (expected one per element)"
+    dbb, dt = dels[0]
+    v = M.trace(CB, dt["args"][0], M.IDENTITY_CALLS)
+    if not (v and all(o.kind == "arg" and o.local == 2 for o in v)):
+        return "the delegated check does not receive the element"
+    r = M.trace(CB, dt["args"][1], M.IDENTITY_CALLS)
+    if not (r and all(o.kind == "upvar" and o.index < len(cap_roles) and cap_roles[o.index].kind == "restr_opt" for o in r)):
+        return "the delegated check does not receive the incoming restriction set"
+    flow = {k for k, _ in M.result_flow(CB, dbb, dt)}
+    if not flow <= {"returned", "propagated"}:
+        return f"the result of the delegated check is {sorted(flow)} inside the closure"
+    others = [M.Body.callee_decl(x) for _, x in CB.calls() if x is not dt and not (M.Body.callee_decl(x) or "").endswith(
+        ("clone::Clone::clone", "ops::Deref::deref", "ops::Try::branch", "FromResidual::from_residual"))]
+    if others:
+        return f"the closure does more than delegating: {others}"
+    return None
 
 
 def classify_carrier(self_ty):
